@@ -8,6 +8,7 @@ cd "$(dirname "$0")"
 cargo kani --version
 cbmc --version
 z3 --version
+z3-new --version
 cvc5 --version | head -1
 rustup toolchain list | grep -q nightly
 python3 -c "import json; json.load(open('MANIFEST.json')); print('manifest ok')"
